@@ -267,6 +267,8 @@ func validCheck(prop, which string) *sqrun.Check {
 					d = 18
 					if c.Thorough {
 						d = 28
+					} else if cfg.TTL == 3 && cfg.GC > 4 {
+						d = 15 // the widest horizon (past instants up to 3 ticks back are told apart): a shallower bound
 					}
 				} else if !c.Thorough {
 					if cfg.TTL == 3 {
